@@ -138,12 +138,12 @@ Theorem predict_shape_image_channel_last c h w ashape n :
   predict_shape (SBox [c; h; w] true) ashape [n; h; w; c] = Some (n :: ashape).
 Proof.
   split.
-  - unfold predict_shape, obs_to_tensor. cbn [maybe_transpose].
+  - unfold predict_shape, obs_to_tensor. cbn [supported maybe_transpose].
     destruct (accepted [h; w; c] [c; h; w]) eqn:A; cbn [negb].
     + unfold accepted in A. cbn [tl] in A. rewrite (shape_eqb_neq [w; c] [c; h; w]) in A by (intros E; discriminate E).
       rewrite orb_false_r in A. apply shape_eqb_eq in A. rewrite A. cbn [is_vectorized]. rewrite shape_eqb_refl. reflexivity.
     + cbn [transpose_shape]. rewrite accepted_single. cbn [is_vectorized]. rewrite shape_eqb_refl. reflexivity.
-  - unfold predict_shape, obs_to_tensor. cbn [maybe_transpose].
+  - unfold predict_shape, obs_to_tensor. cbn [supported maybe_transpose].
     destruct (accepted [n; h; w; c] [c; h; w]) eqn:A; cbn [negb].
     + unfold accepted in A. cbn [tl] in A. rewrite (shape_eqb_neq [n; h; w; c] [c; h; w]) in A by (intros E; discriminate E).
       cbn [orb] in A. apply shape_eqb_eq in A. rewrite A. cbn [is_vectorized tl].
@@ -395,4 +395,12 @@ Proof.
   - rewrite filter_app, filter_repeat_nonlinear by reflexivity. cbn [app filter is_linear length].
     destruct arch as [|a rest]; [reflexivity|]. rewrite block_linear. cbn [length pred]. lia.
   - cbn [filter length]. destruct arch as [|a rest]; [reflexivity|]. rewrite block_linear. cbn [length pred]. lia.
+Qed.
+
+(* for a value inside the range the encoding has its single 1 at that value *)
+Theorem one_hot_has_one n v : (v < n)%nat -> nth v (onehot n v) 0 = 1 /\ forall j, (j < n)%nat -> j <> v -> nth j (onehot n v) 0 = 0.
+Proof.
+  intros H. split.
+  - rewrite one_hot_by_value by exact H. rewrite Nat.eqb_refl. reflexivity.
+  - intros j Hj N. rewrite one_hot_by_value by exact Hj. destruct (Nat.eqb_spec j v); [contradiction | reflexivity].
 Qed.
